@@ -143,3 +143,11 @@ reg["C19"] = {"level": "other", "explanation": "bounded symbolic execution of th
                  {"name": "VH_SN_Process", "pkg": "internal/app/subsystems/aio/sender", "labels": ["C19:"], "reach": ["delivered", "failed-hand-off"]}]
                  + co(["VH_D_Enqueue"], ["C08:message-names", "C08:dispatches-only"], opts=DISPOPT, optsT=DISPOPT_T, reach=REACH_P)
                  + co(["VH_D_CreateRouted"], ["C08:invocation-task-addressed-as-routed"], opts=ROUTEOPT, reach=REACH_P)}
+
+E_H = ["ReadPromise", "ReadPromises", "SearchPromises", "CreatePromise", "UpdatePromise", "CreateCallback", "DeleteCallbacks", "ReadSchedule", "ReadSchedules", "SearchSchedules",
+       "CreateSchedule", "UpdateSchedule", "DeleteSchedule", "ReadLock", "AcquireLock", "ReleaseLock", "HeartbeatLocks", "TimeoutLocks", "ReadTask", "ReadTasks", "ReadEnqueueableTasks",
+       "CreateTask", "CreateTasks", "CompleteTasks", "UpdateTask", "HeartbeatTasks", "CreatePromiseAndTask"]
+reg["C17"] = {"level": "translation_validation", "explanation": "for each of the 27 store command kinds the real SQLite handler and the real Postgres handler (Go SSA + their own SQL statement constants) are executed symbolically on the same symbolic database and the same symbolic command; SMT decides that they agree on error/success, on the result and on the resulting database; the two CREATE TABLE scripts are compared column by column",
+    "assumptions": COMMON_ASSUME + ["documented dialect differences are not alarms: parameter numbering; LIKE collation (one uninterpreted predicate); JSON containment @> vs per-key json_extract on string-valued maps; rows of a LIMIT query without total order compared by count; SQLite's arbitrary representative under GROUP BY vs DISTINCT ON .. ORDER BY sort_id compared by the number of roots served; SERIAL vs AUTOINCREMENT; cursor positions within 32 bits"],
+    "outside": ["the engines' own behaviour (MVCC, collations, JSON operators on non-string values)", "Postgres cannot be run here: its half of a counterexample is by reading, the SQLite half is demonstrable natively"],
+    "harnesses": [{"name": "VH_E_" + n, "pkg": CO, "labels": ["C17:"], "reach": ["both-ok"]} for n in E_H] + [{"name": "VH_E_Schema", "pkg": CO, "labels": ["C17:"], "reach": ["done"]}]}
